@@ -85,6 +85,13 @@ func main() {
 			os.Exit(1)
 		}
 		props.DebugDNF(prog, os.Args[2], os.Args[3], os.Args[4])
+	case "unlocked":
+		prog, err := core.Load(core.RepoDir(), "")
+		if err != nil {
+			fmt.Println(err)
+			os.Exit(1)
+		}
+		props.DebugUnlocked(prog)
 	case "guards":
 		prog, err := core.Load(core.RepoDir(), "")
 		if err != nil {
